@@ -225,7 +225,7 @@ def exhaustive_2x2(alphabet=None):
         yield mk([a, b], [c_, d])
 
 
-def pool(tier, seed, with_named=True, with_max=False):
+def pool(tier, seed, with_named=True, with_max=False, wide=False):
     rnd = random.Random(1000+seed)
     out = named_settings() if with_named else []
     if tier == 'quick':
@@ -261,6 +261,13 @@ def pool(tier, seed, with_named=True, with_max=False):
         a = mk(sr, tg, excluded=ex_, name=nm)
         a['nodes'] = 'shared'
         out.append(a)
+    if wide:
+        # four connectors on one side (C09 only): own generator, so that the instances above do not change
+        rnd_w = random.Random(7000+seed)
+        wshapes = [(1, 4, 3), (4, 1, 3), (2, 4, 4), (4, 2, 4)] if tier == 'quick' else [(1, 4, 40), (4, 1, 40), (2, 4, 60), (4, 2, 60)]
+        for ns, nt, n in wshapes:
+            for k_ in range(n):
+                out.append(random_settings(rnd_w, ns, nt, with_max=with_max and k_ % 3 == 0))
     if tier == 'thorough':
         # bounded-exhaustive part: every assignment of the 10-type sub-alphabet to 2x2 connectors would be 10^4
         # settings x ~12 patterns; a seeded third of it keeps the thorough tier at minutes
